@@ -143,3 +143,50 @@ Proof.
       intros q' Hq' Hc' Hge. unfold q. apply least_gap; [exact Hgap| |exact Hc'].
       unfold Q. apply N.max_lub; [exact Hq'|]. apply quotient_le; [clear - H7; lia|exact Hge].
 Qed.
+
+(** when addSievingPrime stores nothing, no multiple prime*q (q >= prime coprime to 30) of this or any later
+    segment lies at or below stop: the prime is not needed *)
+Theorem asp30_none_dead stop p low :
+  prime p -> 7 <= p -> p < 2 ^ 32 -> low mod 30 = 0 -> stop <= MAX64 -> low + 6 <= MAX64 ->
+  addSievingPrime30 stop p low = None ->
+  forall q, p <= q -> coprime30 q -> low + 7 <= p * q -> stop < p * q.
+Proof.
+  intros Hp H7 H32 Hl Hstop Hlow H q Hq Hc Hge. unfold addSievingPrime30, addSievingPrime in H. cbv zeta in H.
+  assert (Hl6 : low + 6 < U64) by (clear - Hlow; unfold U64, MAX64 in *; lia).
+  rewrite (wrap64_small (low + 6) Hl6) in H.
+  destruct init_factor_bounds as (_ & _ & _ & _ & M30 & _). rewrite M30 in H.
+  set (Q := N.max p ((low + 6) / p + 1)) in *.
+  (* q is at least the first cofactor the function would use *)
+  pose proof wheel30Init_sweep as T. rewrite forallb_forall in T.
+  assert (HQ : Q mod 30 < N.of_nat 30) by (change (N.of_nat 30) with 30; apply N.mod_lt; clear; lia).
+  specialize (T _ (In_Nseq 30 _ HQ)). cbv zeta in T.
+  set (e := nth (N.to_nat (Q mod 30)) wheel30Init (0, 0)) in *.
+  apply andb_true_iff in T. destruct T as [T T4]. apply andb_true_iff in T. destruct T as [T _].
+  apply andb_true_iff in T. destruct T as [T1 _]. apply N.leb_le in T1.
+  assert (Hgap : forall d, d < fst e -> ~ coprime30 (Q + d)).
+  { intros d Hd Hc'. rewrite forallb_forall in T4.
+    assert (Hin : In d (filter (fun d => d <? fst e) (Nseq 7))).
+    { apply filter_In. split; [apply In_Nseq; change (N.of_nat 7) with 7; clear - Hd T1; lia|apply N.ltb_lt; exact Hd]. }
+    specialize (T4 _ Hin). apply negb_true_iff in T4. unfold coprime30 in Hc'.
+    rewrite <- N.add_mod_idemp_l in Hc' by (clear; lia). apply existsb_eqb_In in Hc'. congruence. }
+  assert (HQq : Q + fst e <= q).
+  { apply least_gap; [exact Hgap| |exact Hc]. unfold Q. apply N.max_lub; [exact Hq|]. apply quotient_le; [clear - H7; lia|exact Hge]. }
+  assert (Hpq : p * (Q + fst e) <= p * q) by (apply N.mul_le_mono_l; exact HQq).
+  assert (HpQ : p * Q <= p * (Q + fst e)) by (apply N.mul_le_mono_l; clear; lia).
+  assert (Hprod : low + 6 < p * Q).
+  { assert (HQ1 : (low + 6) / p + 1 <= Q) by (unfold Q; apply N.le_max_r).
+    assert (p * ((low + 6) / p + 1) <= p * Q) by (apply N.mul_le_mono_l; exact HQ1).
+    pose proof (N.div_mod (low + 6) p ltac:(clear - H7; lia)) as E. pose proof (N.mod_lt (low + 6) p ltac:(clear - H7; lia)) as L.
+    clear - H0 E L. lia. }
+  destruct (N.lt_ge_cases (p * Q) U64) as [Hnw|Hw].
+  - rewrite (wrap64_small (p * Q) Hnw) in H.
+    destruct (N.ltb_spec stop (p * Q)) as [Hs|Hs]; [clear - Hs Hpq HpQ; lia|].
+    destruct (N.ltb_spec (p * Q) (low + 6)) as [Hs2|Hs2]; [clear - Hs2 Hprod; lia|]. cbn [orb] in H.
+    assert (Hpf : p * fst e < U64).
+    { change (2 ^ 32) with 4294967296 in H32. assert (p * fst e <= p * 6) by (apply N.mul_le_mono_l; exact T1). clear - H0 H32. unfold U64. lia. }
+    rewrite (wrap64_small (p * fst e) Hpf) in H.
+    destruct (N.ltb_spec (stop - p * Q) (p * fst e)) as [Hs3|Hs3]; [|discriminate].
+    rewrite N.mul_add_distr_l in Hpq. clear - Hs3 Hpq Hs. lia.
+  - (* the product does not fit into 64 bits: it exceeds stop *)
+    clear - Hw Hpq HpQ Hstop. unfold U64, MAX64 in *. lia.
+Qed.
